@@ -6,6 +6,8 @@ Driver for stream `witness` (C15). One op per line, one observation per line.
   mt <cond>                        -> one char per context of the table: 1 | 0 | e   (`matchC`)
   cw <hash> <env> <signers>        -> true | false | err:nosigners | err:noreadstates   (`checkWitness`)
   dec <depth> <hex>                -> ok <cond> <rest-hex> | err      (`decodeCond` with maxDepth = depth)
+  vs <byte>                        -> ok | err                         (`validScopes`: ScopesFromByte)
+  enc <cond>                       -> <hex>                            (`encodeCond`, keys as 33 bytes)
   decs <hex>                       -> ok <signer> <rest-hex> | err    (`decodeSigner`; signer printed with full-width hashes)
   adm <depth> <cond>               -> ok | err                         (`admit`: the JSON / stack-item decoders)
 
@@ -82,9 +84,10 @@ def lookupContract (tbl : List (Hash × List Key)) (h : Hash) : Option (List Key
 def pEnv : P Env := fun ts => do
   let (fs, r) ← pCounted pFrame ts
   let (cs, r) ← pCounted pContract r
-  match fs with
+  -- frames come innermost first; the model builds the environment from the entry script by successive loads
+  match fs.reverse with
   | [] => none
-  | f :: ps => pure ({ cur := f, parents := ps, contracts := lookupContract cs }, r)
+  | f0 :: calls => pure (Env.ofCalls (lookupContract cs) f0 calls, r)
 
 def pRule : P Rule := fun ts => do
   let (a, r) ← pDec ts
@@ -172,6 +175,14 @@ def step (tbl : Array Env) (ws : List String) : Array Env × String :=
     match d.toNat?, pCond rest with
     | some d, some (c, []) => (tbl, if admit c d then "ok" else "err")
     | _, _ => (tbl, "bad-op")
+  | ["vs", n] =>
+    match n.toNat? with
+    | some v => (tbl, if validScopes v then "ok" else "err")
+    | none => (tbl, "bad-op")
+  | "enc" :: rest =>
+    match pCond rest with
+    | some (c, []) => (tbl, Hex.encode (encodeCond (beBytes 33) c))
+    | _ => (tbl, "bad-op")
   | ["decs", h] =>
     match Hex.decode h with
     | some bs =>
